@@ -1,0 +1,105 @@
+// Copyright 2019 Samaritan Authors
+//
+// Licensed under the Apache License, Version 2.0 (the "License");
+// you may not use this file except in compliance with the License.
+// You may obtain a copy of the License at
+//
+//      http://www.apache.org/licenses/LICENSE-2.0
+//
+// Unless required by applicable law or agreed to in writing, software
+// distributed under the License is distributed on an "AS IS" BASIS,
+// WITHOUT WARRANTIES OR CONDITIONS OF ANY KIND, either express or implied.
+// See the License for the specific language governing permissions and
+// limitations under the License.
+
+//go:build verif
+// +build verif
+
+package config
+
+import (
+	"errors"
+
+	"github.com/samaritan-proxy/samaritan/pb/config/bootstrap"
+	"github.com/samaritan-proxy/samaritan/pb/config/service"
+)
+
+// This file only exists with the build tag "verif". It lets the verification
+// harness (/verif/harness) drive the configuration store without a discovery
+// server: the three update handlers are otherwise reachable only through a
+// live gRPC stream. It adds no behaviour to the store.
+
+// VerifNewStore creates a store with New from a bootstrap that has no dynamic
+// source (initDynamic then returns before dialing anything). If evtCap > 0 the
+// event channel is re-created with that capacity (the code's capacity is 32)
+// and the events of the static services are carried over, so that a full
+// channel can be reached with short histories.
+func VerifNewStore(b *bootstrap.Bootstrap, evtCap int) (*Config, error) {
+	if b.DynamicSourceConfig != nil {
+		return nil, errors.New("verif: bootstrap must not configure a dynamic source")
+	}
+	c, err := New(b)
+	if err != nil {
+		return nil, err
+	}
+	if evtCap > 0 && evtCap != cap(c.evtCh) {
+		if len(c.evtCh) > evtCap {
+			return nil, errors.New("verif: more static services than event capacity")
+		}
+		ch := make(chan Event, evtCap)
+		for len(c.evtCh) > 0 {
+			ch <- <-c.evtCh
+		}
+		c.evtCh = ch
+	}
+	return c, nil
+}
+
+// VerifHandleDependencyUpdate calls the dependency hook of the store.
+func (c *Config) VerifHandleDependencyUpdate(added, removed []*service.Service) {
+	c.handleDependencyUpdate(added, removed)
+}
+
+// VerifHandleSvcConfigUpdate calls the service config hook of the store.
+func (c *Config) VerifHandleSvcConfigUpdate(svcName string, newCfg *service.Config) {
+	c.handleSvcConfigUpdate(svcName, newCfg)
+}
+
+// VerifHandleSvcEndpointUpdate calls the service endpoint hook of the store.
+func (c *Config) VerifHandleSvcEndpointUpdate(svcName string, added, removed []*service.Endpoint) {
+	c.handleSvcEndpointUpdate(svcName, added, removed)
+}
+
+// VerifEventBacklog returns the number of events queued in the event channel
+// and its capacity.
+func (c *Config) VerifEventBacklog() (n, capacity int) {
+	return len(c.evtCh), cap(c.evtCh)
+}
+
+// VerifSvc is a copy of one entry of the service table.
+type VerifSvc struct {
+	Name         string
+	Config       *service.Config
+	HasEndpoints bool // Endpoints != nil
+	Endpoints    []*service.Endpoint
+}
+
+// VerifSnapshot copies the service table. With locked == false the store's
+// lock is not taken: only for a caller that knows the lock holder is parked
+// in a channel send (a handler blocked on the full event channel).
+func (c *Config) VerifSnapshot(locked bool) []VerifSvc {
+	if locked {
+		c.RLock()
+		defer c.RUnlock()
+	}
+	res := make([]VerifSvc, 0, len(c.sws))
+	for name, sw := range c.sws {
+		res = append(res, VerifSvc{
+			Name:         name,
+			Config:       sw.Config,
+			HasEndpoints: sw.Endpoints != nil,
+			Endpoints:    append([]*service.Endpoint(nil), sw.Endpoints...),
+		})
+	}
+	return res
+}
